@@ -1,0 +1,121 @@
+//! Footprint counters of a [`Machine`] (cargo feature `verif`, off by default).
+//!
+//! Add-only, read-only: used by `crate::verif_hooks::machine_footprint` to observe
+//! whether repeated loads of the same source text grow any of the machine's stores.
+
+use crate::machine::*;
+
+impl Machine {
+    /// Named size counters of the machine's stores, in a fixed order.
+    pub(crate) fn verif_footprint(&self) -> Vec<(&'static str, usize)> {
+        let mut out: Vec<(&'static str, usize)> = Vec::with_capacity(32);
+
+        let st = &self.machine_st;
+        let ix = &self.indices;
+
+        out.push(("heap", st.heap.cell_len()));
+        out.push(("atoms", st.atom_tbl.active_table().len()));
+        out.push(("stack", st.stack.top()));
+        out.push(("trail", st.trail.len()));
+        out.push(("tr", st.tr));
+        out.push(("b", st.b));
+        out.push(("e", st.e));
+        out.push(("ball_stack", st.ball_stack.len()));
+        out.push(("cont_pts", st.cont_pts.len()));
+        out.push(("attr_goals", st.attr_var_init.attr_var_queue.len()));
+        out.push(("lifted_heap", st.lifted_heap.cell_len()));
+        out.push(("code", self.code.len()));
+        out.push(("code_index_tbl", st.arena.code_index_tbl.verif_entry_count()));
+        out.push(("floats", st.arena.f64_tbl.verif_entry_count()));
+
+        let (slabs, live, inactive, dropped) = st.arena.verif_slab_counts();
+        out.push(("arena_slabs", slabs));
+        out.push(("arena_dropped", dropped));
+        out.push(("live_load_states", live));
+        out.push(("inactive_load_states", inactive));
+        out.push(("load_contexts", self.load_contexts.len()));
+        out.push(("streams", ix.iter_streams(..).count()));
+
+        out.push(("code_dir", ix.code_dir.len()));
+        out.push(("op_dir", ix.op_dir.len()));
+        out.push(("meta_predicates", ix.meta_predicates.len()));
+        out.push(("goal_expansions", ix.goal_expansion_indices.len()));
+        out.push(("global_variables", ix.global_variables.len()));
+        out.push(("ext_preds", ix.extensible_predicates.len()));
+        out.push(("local_ext_preds", ix.local_extensible_predicates.len()));
+
+        let mut ext_clauses = 0;
+        let mut ext_locs = 0;
+        let mut ext_retracted = 0;
+
+        for skel in ix.extensible_predicates.values() {
+            ext_clauses += skel.clauses.len();
+            ext_locs += skel.core.clause_clause_locs.len();
+            ext_retracted += skel
+                .core
+                .retracted_dynamic_clauses
+                .as_ref()
+                .map(|v| v.len())
+                .unwrap_or(0);
+        }
+
+        let mut local_locs = 0;
+
+        for skel in ix.local_extensible_predicates.values() {
+            local_locs += skel.clause_clause_locs.len();
+            ext_retracted += skel
+                .retracted_dynamic_clauses
+                .as_ref()
+                .map(|v| v.len())
+                .unwrap_or(0);
+        }
+
+        out.push(("modules", ix.modules.len()));
+
+        let mut m_code_dir = 0;
+        let mut m_op_dir = 0;
+        let mut m_meta = 0;
+        let mut m_ext = 0;
+        let mut m_local_ext = 0;
+
+        for module in ix.modules.values() {
+            m_code_dir += module.code_dir.len();
+            m_op_dir += module.op_dir.len();
+            m_meta += module.meta_predicates.len();
+            m_ext += module.extensible_predicates.len();
+            m_local_ext += module.local_extensible_predicates.len();
+
+            for skel in module.extensible_predicates.values() {
+                ext_clauses += skel.clauses.len();
+                ext_locs += skel.core.clause_clause_locs.len();
+                ext_retracted += skel
+                    .core
+                    .retracted_dynamic_clauses
+                    .as_ref()
+                    .map(|v| v.len())
+                    .unwrap_or(0);
+            }
+
+            for skel in module.local_extensible_predicates.values() {
+                local_locs += skel.clause_clause_locs.len();
+                ext_retracted += skel
+                    .retracted_dynamic_clauses
+                    .as_ref()
+                    .map(|v| v.len())
+                    .unwrap_or(0);
+            }
+        }
+
+        out.push(("module_code_dirs", m_code_dir));
+        out.push(("module_op_dirs", m_op_dir));
+        out.push(("module_meta_predicates", m_meta));
+        out.push(("module_ext_preds", m_ext));
+        out.push(("module_local_ext_preds", m_local_ext));
+        out.push(("skeleton_clauses", ext_clauses));
+        out.push(("skeleton_clause_locs", ext_locs));
+        out.push(("local_clause_locs", local_locs));
+        out.push(("retracted_dynamic_clauses", ext_retracted));
+
+        out
+    }
+}
